@@ -419,3 +419,35 @@ Require Import Proofs.PsiGenDesc2.
 Theorem C13_descriptors_are_source : descriptor_parsers_tie.
 Proof. exact descriptor_loop_is_source. Qed.
 Print Assumptions C13_descriptors_are_source.
+
+(* ---- the table writers above are the source ----
+   C13_write_pat / C13_write_pmt and the round trips speak about the writers of Model/Psi.v. Each of them is, for every
+   argument, what go/gen (psiwritegen.go) translates from the CURRENT source of data_psi.go / data_pat.go / data_pmt.go into
+   Gen/PsiWriteGen.v (wfn_sim, Proofs/PsiWriteGenBase.v: same items in the same order up to the bits a w-bit write ignores,
+   same count, same error class, same panics), with the descriptor writer regenerated from descriptor.go underneath
+   (C14_writers_are_source): calcPMTSectionLength, calcPSISectionLength with its nil dereferences, writePATSection,
+   writePMTSection (elementary stream loop), writePSISectionSyntaxHeader / SyntaxData / Syntax, writePSISection (CRC_32
+   through the write callback), writePSIData (pointer field, filler loop, section loop). *)
+Require Import Gen.MuxGen Gen.WriteGen Gen.PsiWriteGen Proofs.WriteGenBase Proofs.PsiWriteGenBase Proofs.PsiWriteGenPsi
+  Proofs.PsiWriteGenAll.
+Theorem C13_writers_are_source :
+  (forall d, gcalcPMTSectionLength d = calc_pmt_section_length d) /\
+  (forall s, gcalcPSISectionLength s = ([], res_opt (calc_psi_section_length_res s))) /\
+  (forall d, wfn_sim (PsiWriteGen.writePATSection d) (Ok (enc_pat_section d)) (pat_written d)) /\
+  (forall d, wfn_sim (gwritePMTSection d) (enc_pmt_section d) (pmt_written d)) /\
+  (forall h, wfn_sim (PsiWriteGen.writePSISectionSyntaxHeader h) (Ok (enc_psi_section_syntax_header h)) 5) /\
+  (forall d tid, wfn_sim (gwritePSISectionSyntaxData d tid) (enc_psi_section_syntax_data d tid) (syntax_data_written d tid)) /\
+  (forall s h, PSISection_Header s = Some h ->
+     wfn_sim (gwritePSISectionSyntax s) (enc_psi_section_syntax s (PSISectionHeader_TableID h))
+             (syntax_written s (PSISectionHeader_TableID h))) /\
+  (forall s, wfn_sim (gwritePSISection s) (enc_psi_section s) (section_written s)) /\
+  (forall d, wfn_sim (gwritePSIData d) (enc_psi_data d) (psi_written d)).
+Proof. exact psi_writers_are_source. Qed.
+Print Assumptions C13_writers_are_source.
+(* the translated writers run: the PMT of the example with a program descriptor and an elementary stream descriptor *)
+Example C13_writers_are_source_inhabited :
+  snd (gwritePSIData ex_psi) = Some (30, ENil) /\
+  Ok (bytes_of_items (map snd (fst (gwritePSIData ex_psi)))) = write_psi_data ex_psi /\
+  length (bytes_of_items (map snd (fst (gwritePSIData ex_psi)))) = 30%nat /\
+  computeCRC32 (firstn 29 (skipn 1 (bytes_of_items (map snd (fst (gwritePSIData ex_psi)))))) = 0.
+Proof. exact psi_writer_runs. Qed.
